@@ -1019,7 +1019,15 @@ def oracle(ctx, pym, Poly, results):
             if dirty:
                 ctx.count('oracle:left-over-sensitivity-on-input-not-reached-by-reset')
             outputs = [ref.roots[o].state for o in outs_ref]
-            seeds = seeds_used(fd, outputs, r1['rand'])
+            try:
+                seeds = seeds_used(fd, outputs, r1['rand'])
+                drawn = sum(2 if np.iscomplexobj(o) else 1 for o in outputs) if (fd['random'] and fd.get('use_df') is None) else 0
+                if len(r1['rand']) != drawn:
+                    raise IndexError(f'{len(r1["rand"])} draws')
+            except (IndexError, ValueError) as e:
+                bad('the random seed of every output is drawn from np.random.rand (real part, and imaginary part for a '
+                    'complex output), none otherwise', 'seed', None, repr(e))
+                continue
             dxv = 2.0 ** (-fd['k'])
             an_sens = []
             for o, w in zip(outs_ref, seeds):
